@@ -262,4 +262,29 @@ theorem fromMultihash_eq (clockId : Bytes) (logSort fetchSort : SortKind) (id : 
   have hom : omFromList ents = ents := omFromList_id hentsND
   rw [hom, head_entries_fold ents hentsND _ [] (fun e he => (List.mem_filter.mp he).1), List.nil_append]
 
+/-! ## `fromEntryHash` around the fetch = `loadEntryHash` -/
+
+theorem fromEntryHashLength_eq (nOpt : Option Int) :
+    Generated.Go.fromEntryHashLength nOpt = (if nOpt.getD (-1) > -1 then max (nOpt.getD (-1)) 1 else -1) := by
+  unfold Generated.Go.fromEntryHashLength
+  cases nOpt with
+  | none => simp
+  | some v =>
+    simp only [Option.isSome_some, Bool.true_and, Option.getD_some, C19Gen.maxInt_eq]
+    by_cases h : v > -1 <;> simp [h]
+
+/-- **`fromEntryHash`'s glue, translated, is the model's `loadEntryHash`** (default ordering; the slice is sorted
+    through one of its names and trimmed through the other — the translation updates both) -/
+theorem fromEntryHash_eq (clockId : Bytes) (k : SortKind) (id : Bytes) (fetched : List Entry) (nOpt : Option Int) :
+    (Generated.Go.fromEntryHashTail (beforeAsc .lww) fetched (Generated.Go.fromEntryHashLength nOpt)).map
+        (fun ents => newLog id clockId k ents []) =
+      some (loadEntryHash clockId k id fetched (nOpt.getD (-1))) := by
+  rw [fromEntryHashLength_eq]
+  unfold Generated.Go.fromEntryHashTail Generated.Go.fromEntryHashTail_join1 loadEntryHash sortTrim
+  simp only [entryLastN_eq]
+  by_cases h : nOpt.getD (-1) > -1
+  · have h2 : max (nOpt.getD (-1)) 1 > -1 := by omega
+    simp [h, h2]
+  · simp [h]
+
 end Model.SlicesGen
